@@ -14,6 +14,7 @@ import (
 	"go/constant"
 	"go/token"
 	"go/types"
+	"os"
 	"sort"
 	"strings"
 
@@ -36,6 +37,9 @@ type SliceV struct{ Elems []Val }
 type MapV struct {
 	Keys []Val
 	Vals []Val
+	// Exact: the listed keys are all there is - a lookup whose key is known to differ from every listed key misses (and
+	// yields the zero value). Otherwise a miss is unknown (the map stands for a larger one).
+	Exact bool
 }
 type StrV string
 
@@ -346,10 +350,16 @@ type Interp struct {
 	Undecided []string // reasons evaluation lost precision in a way that matters
 	retVal    Val
 	pkgVars   map[types.Object]*Val
+	// optional hooks for analyses that evaluate code over synthetic objects: a field an object does not have, and a
+	// call that has neither a model nor a body (an interface method). t is the static type of the result.
+	FieldFallback func(o *Obj, name string, t types.Type) (Val, bool)
+	CallFallback  func(fn *types.Func, recv Val, args []Val, t types.Type) (Val, bool)
 }
 
 func NewInterp(L *Loaded) *Interp {
-	return &Interp{L: L, Models: map[string]ModelFn{}, MaxDepth: 6, pkgVars: map[types.Object]*Val{}}
+	in := &Interp{L: L, Models: map[string]ModelFn{}, MaxDepth: 6, pkgVars: map[types.Object]*Val{}}
+	installLibModels(in)
+	return in
 }
 
 func (in *Interp) event(kind, msg string, pos token.Pos, data ...Val) {
@@ -365,6 +375,9 @@ func (in *Interp) decide(why string) bool {
 	in.decisions = append(in.decisions, true)
 	in.dpos++
 	in.Forked = true
+	if os.Getenv("VERIF_DEBUG") == "forks" {
+		fmt.Println("fork:", why)
+	}
 	return true
 }
 
@@ -701,6 +714,9 @@ func (in *Interp) exec(pkg *packages.Package, env *Env, s ast.Stmt) ctl {
 			}
 			return ctlNone
 		}
+		if _, isNil := xv.(NilV); isNil {
+			return ctlNone // ranging over a nil slice or map: no iteration
+		}
 		sl, ok := xv.(SliceV)
 		if !ok {
 			// unknown collection: the body may run any number of times; evaluate it once under a fork, effects only
@@ -1033,7 +1049,7 @@ func (in *Interp) store(pkg *packages.Package, env *Env, l ast.Expr, v Val) {
 	case *ast.SelectorExpr:
 		base := in.eval(pkg, env, x.X)
 		if o, ok := base.(*Obj); ok {
-			o.set(x.Sel.Name, v)
+			o.set(selName(info, x), v)
 		}
 	case *ast.StarExpr:
 		in.store(pkg, env, x.X, v)
@@ -1041,7 +1057,7 @@ func (in *Interp) store(pkg *packages.Package, env *Env, l ast.Expr, v Val) {
 		// writes into a known map are tracked (the map value is rebuilt and stored back into its holder); other element writes are not
 		if mv, ok := in.eval(pkg, env, x.X).(MapV); ok {
 			k := in.eval(pkg, env, x.Index)
-			nm := MapV{Keys: append([]Val{}, mv.Keys...), Vals: append([]Val{}, mv.Vals...)}
+			nm := MapV{Keys: append([]Val{}, mv.Keys...), Vals: append([]Val{}, mv.Vals...), Exact: mv.Exact}
 			found := false
 			for i, kk := range nm.Keys {
 				if t, known := eqVal(kk, k); known && t {
@@ -1090,7 +1106,7 @@ func (in *Interp) eval(pkg *packages.Package, env *Env, e ast.Expr) Val {
 			return StrV(constant.StringVal(tv.Value))
 		}
 		cv := ConstV{V: tv.Value, T: tv.Type, Name: name}
-		if nt, ok := tv.Type.(*types.Named); ok && nt.Obj().Name() == "PrimitiveType" && nt.Obj().Pkg().Name() == "ddptypes" {
+		if nt, ok := tv.Type.(*types.Named); ok && nameIs(nt.Obj(), "PrimitiveType") && nameIs(nt.Obj().Pkg(), "ddptypes") {
 			return TypeV{&DT{Kind: name}}
 		}
 		return cv
@@ -1127,7 +1143,7 @@ func (in *Interp) eval(pkg *packages.Package, env *Env, e ast.Expr) Val {
 		if sel, ok := info.Selections[x]; ok {
 			base := in.eval(pkg, env, x.X)
 			if sel.Kind() == types.FieldVal {
-				return in.field(base, x.Sel.Name, sel)
+				return in.field(base, selName(info, x), sel)
 			}
 			// method value
 			fn, _ := sel.Obj().(*types.Func)
@@ -1192,12 +1208,25 @@ func (in *Interp) eval(pkg *packages.Package, env *Env, e ast.Expr) Val {
 			if tv, isTuple := info.Types[e].Type.(*types.Tuple); isTuple && tv.Len() == 2 {
 				commaOk = true
 			}
+			allKnown := true
 			for i, k := range mv.Keys {
-				if t, known := eqVal(k, idx); known && t {
+				t, known := eqVal(k, idx)
+				if known && t {
 					if commaOk {
 						return TupleV{mv.Vals[i], boolV(true)}
 					}
 					return mv.Vals[i]
+				}
+				if !known {
+					allKnown = false
+				}
+			}
+			if mv.Exact && allKnown {
+				if mt, ok := info.TypeOf(x.X).Underlying().(*types.Map); ok {
+					if commaOk {
+						return TupleV{in.zero(mt.Elem()), boolV(false)}
+					}
+					return in.zero(mt.Elem())
 				}
 			}
 			if commaOk {
@@ -1304,6 +1333,20 @@ func (in *Interp) evalBinary(pkg *packages.Package, env *Env, x *ast.BinaryExpr)
 			}
 		}
 	}
+	if a, ok := l.(StrV); ok {
+		if b, ok := r.(StrV); ok {
+			switch x.Op {
+			case token.LSS:
+				return boolV(a < b)
+			case token.GTR:
+				return boolV(a > b)
+			case token.LEQ:
+				return boolV(a <= b)
+			case token.GEQ:
+				return boolV(a >= b)
+			}
+		}
+	}
 	return Unk{"binop " + x.Op.String()}
 }
 
@@ -1345,9 +1388,14 @@ func (in *Interp) evalComposite(pkg *packages.Package, env *Env, x *ast.Composit
 		o := newObj(name)
 		for i, e := range x.Elts {
 			if kv, ok := e.(*ast.KeyValueExpr); ok {
-				o.set(kv.Key.(*ast.Ident).Name, in.eval(pkg, env, kv.Value))
+				kid := kv.Key.(*ast.Ident)
+				kname := kid.Name
+				if fv, ok := info.Uses[kid].(*types.Var); ok {
+					kname = canonName(fv)
+				}
+				o.set(kname, in.eval(pkg, env, kv.Value))
 			} else if i < u.NumFields() {
-				o.set(u.Field(i).Name(), in.eval(pkg, env, e))
+				o.set(canonName(u.Field(i)), in.eval(pkg, env, e))
 			}
 		}
 		return o
@@ -1360,6 +1408,11 @@ func (in *Interp) field(base Val, name string, sel *types.Selection) Val {
 	case *Obj:
 		if p, ok := b.F[name]; ok {
 			return *p
+		}
+		if in.FieldFallback != nil && sel != nil {
+			if v, ok := in.FieldFallback(b, name, sel.Type()); ok {
+				return v
+			}
 		}
 		return Unk{"field " + b.Kind + "." + name}
 	case TypeV:
@@ -1414,7 +1467,7 @@ func (in *Interp) pkgLevel(o types.Object) Val {
 	switch x := o.(type) {
 	case *types.Const:
 		name := x.Name()
-		if nt, ok := x.Type().(*types.Named); ok && nt.Obj().Name() == "PrimitiveType" && nt.Obj().Pkg().Name() == "ddptypes" {
+		if nt, ok := x.Type().(*types.Named); ok && nameIs(nt.Obj(), "PrimitiveType") && nameIs(nt.Obj().Pkg(), "ddptypes") {
 			return TypeV{&DT{Kind: name}}
 		}
 		return ConstV{V: x.Val(), T: x.Type(), Name: name}
@@ -1486,6 +1539,12 @@ func (in *Interp) evalCall(pkg *packages.Package, env *Env, call *ast.CallExpr) 
 				v := in.eval(pkg, env, call.Args[0])
 				if sl, ok := v.(SliceV); ok {
 					return ConstV{V: constant.MakeInt64(int64(len(sl.Elems))), T: types.Typ[types.Int]}
+				}
+				if _, isNil := v.(NilV); isNil {
+					return ConstV{V: constant.MakeInt64(0), T: types.Typ[types.Int]}
+				}
+				if mv, ok := v.(MapV); ok && mv.Exact {
+					return ConstV{V: constant.MakeInt64(int64(len(mv.Keys))), T: types.Typ[types.Int]}
 				}
 				return Unk{"len"}
 			case "append":
@@ -1597,6 +1656,11 @@ func (in *Interp) evalCall(pkg *packages.Package, env *Env, call *ast.CallExpr) 
 	}
 	if fi := in.L.Funcs[fn]; fi != nil && strings.HasPrefix(fn.Pkg().Path(), modPath) {
 		return in.CallFunc(fi, recv, args)
+	}
+	if in.CallFallback != nil {
+		if v, ok := in.CallFallback(fn, recv, args, info.TypeOf(call)); ok {
+			return v
+		}
 	}
 	return Unk{"call " + q}
 }
